@@ -168,8 +168,10 @@ RepeatsYearly == Active => InputOf(i) = InputOf(Moy(i))
 Known_F2 == Active /\ Ipf(i) /\ ((Cur.pkc = 0 /\ Cur.pkh > 0 /\ Cur.dayH = 0) \/ (Cur.pkh = 0 /\ Cur.pkc > 0 /\ Cur.dayC = 0))
 Known_F9 == Active /\ Ipf(i) /\ ((Cur.pkc = 0 /\ Cur.wc) \/ (Cur.pkh = 0 /\ Cur.wh))
 
-\* F14: first month, a peak on day 0 whose half-duration exceeds 13 h: the code clamps the pulse start to 1e-6 h
-Known_F14 == Active /\ Clamped(Cur, i)
+\* F14: first month, BOTH peaks on day 0 and a half-duration above 13 h: the clamped pulse start (1e-6 h) is shifted
+\* again by the same-day placement, the two pulses overlap and one segment gets a negative length.
+\* (A single clamped pulse still lasts exactly its duration: energy is conserved, only the centring is lost.)
+Known_F14 == Active /\ Clamped(Cur, i) /\ RealC /\ RealH /\ Cur.dayC = Cur.dayH
 ConservesK == Conserves \/ Known_F14
 DurationsInRangeK == DurationsInRange \/ Known_F14
 StrictlyIncreasingUnlessOverlapK == StrictlyIncreasingUnlessOverlap \/ Known_F14
